@@ -17,14 +17,14 @@ LEVEL_TEXT = ('every point of the product is executed on the real script and cla
               'trailing slashes, symlinked parents, mount points, every candidate trash dir failing)')
 LEVEL_NOTE = ('trusted: CPython/shutil, tmpfs, shim mount rules (EXDEV/EBUSY/ismount); names other than the alphabet and '
               'permission failures of non-root users are not covered')
-RULE = ('product of kind (6) x spelling (24) x option set (11) x layout (9: home trash whose info is a regular file / a dangling symlink, first use, existing pair whose payload is a dangling symlink, existing pair with the same name, orphan directory payload + orphan info with the same name, sticky .Trash, plain volume, every candidate blocked) minus duplicates (kind is irrelevant for '
+RULE = ('product of kind (6) x spelling (24) x option set (14, incl. three combinations) x layout (9: home trash whose info is a regular file / a dangling symlink, first use, existing pair whose payload is a dangling symlink, existing pair with the same name, orphan directory payload + orphan info with the same name, sticky .Trash, plain volume, every candidate blocked) minus duplicates (kind is irrelevant for '
         'spellings that do not name x); non-trivial = the run went past argument screening (a trash-dir candidate was '
         'examined or the entry moved), distinct = outcome class x spelling x option x layout')
 
 SPELL_X = ['x', '/abs/x', './x', 'd/../x', 'x/', 'x//', './/x', 'sd/../x', 'sdv/../x', 'ld/x', 'ldv/x', 'ld/../w/x']
 SPELL_DOT = ['.', '..', './', '../', 'd/.', 'd/..', 'd/./', 'd/../', 'sd/..', '/mnt/v2', '/mnt/v2/', '', 'nonexistent',
              'd']
-OPTS = ['-', '-f', '-iy', '-in', '-ieof', '-v', '-vv', 'td-same', 'td-other', 'hf-flag', 'hf-both']
+OPTS = ['-', '-f', '-iy', '-in', '-ieof', '-v', '-vv', 'td-same', 'td-other', 'hf-flag', 'hf-both', '-f-v', '-iy-v-td-same', '-f-hf-both']
 LAYOUTS = ['home-cold', 'home-warm-samename', 'home-warm-orphans', 'home-warm-dangling', 'home-info-is-file', 'home-info-dangling', 'vol-sticky', 'vol-plain', 'vol-blocked']
 
 
@@ -34,11 +34,11 @@ def dimensions(tier):
 
 
 def opts(tier):
-    return OPTS if tier == 'thorough' else ['-', '-f', '-in', '-vv', 'td-other', 'hf-both']
+    return OPTS
 
 
 def layouts(tier):
-    return LAYOUTS if tier == 'thorough' else ['home-cold', 'home-warm-orphans', 'home-warm-dangling', 'home-info-is-file', 'vol-plain', 'vol-blocked']
+    return LAYOUTS
 
 
 def cases(tier):
@@ -127,6 +127,14 @@ def run_case(c):
         argv += ['--trash-dir', P + '/tdsame']
     elif o == 'td-other':
         argv += ['--trash-dir', '/mnt/v2/tdother' if not B.startswith('/mnt/v2') else '/home/u/tdx']
+    elif o == '-f-v':
+        argv += ['-f', '-v']
+    elif o == '-iy-v-td-same':
+        argv += ['-i', '-v', '--trash-dir', P + '/tdsame']
+        stdin = 'y\n'
+    elif o == '-f-hf-both':
+        argv += ['-f', '--home-fallback']
+        env['TRASH_ENABLE_HOME_FALLBACK'] = '1'
     elif o == 'hf-flag':
         argv.append('--home-fallback')
     elif o == 'hf-both':
